@@ -8,24 +8,9 @@
 From Coq Require Import ZArith Reals Lia.
 From Flocq Require Import Core.Core Core.Digits Core.Float_prop Calc.Bracket Calc.Round Calc.Operations.
 From Soy Require Import Model.Bytes Model.Num.
+(* the conversion fl -> R (ff_R) and its basic lemmas are shared with Proofs/NumLitFlocq.v *)
+From Soy Require Export Proofs.FloatFlocqBase.
 Open Scope Z_scope.
-
-#[local] Instance ff_prec_gt_0 : Prec_gt_0 53.
-Proof. reflexivity. Qed.
-
-Lemma ff_digits_log2 a : 0 < a -> Zdigits radix2 a = Z.log2 a + 1.
-Proof.
-  intros Ha. apply Zdigits_unique. rewrite Z.abs_eq by lia. replace (Z.log2 a + 1 - 1) with (Z.log2 a) by lia.
-  change (Zpower radix2 (Z.log2 a)) with (2 ^ Z.log2 a). change (Zpower radix2 (Z.log2 a + 1)) with (2 ^ (Z.log2 a + 1)).
-  pose proof (Z.log2_spec a Ha) as [L1 L2]. rewrite <- Z.add_1_r in L2. lia.
-Qed.
-
-Lemma ff_Rlt_bool_F2R M E : Rlt_bool (F2R (Float radix2 M E)) 0 = (M <? 0).
-Proof.
-  destruct (Z.ltb_spec M 0) as [H|H].
-  - apply Rlt_bool_true. apply F2R_lt_0. exact H.
-  - apply Rlt_bool_false. apply F2R_ge_0. exact H.
-Qed.
 
 Theorem round53_is_flocq_round (M E : Z) :
   let '(m, e) := round53 M E in
@@ -71,32 +56,6 @@ Proof.
 Qed.
 
 (* ---- the operations of Num.v ---- *)
-(* the value of a float of the model *)
-Definition ff_R (x : fl) : R :=
-  match x with
-  | FFin m e => F2R (Float radix2 m e)
-  | _ => 0%R
-  end.
-
-Lemma ff_strip2 p : forall e q e', strip2 p e = (q, e') ->
-  forall s : bool, F2R (Float radix2 (if s then Zneg p else Zpos p) e) = F2R (Float radix2 (if s then Zneg q else Zpos q) e').
-Proof.
-  induction p as [p IH|p IH|]; intros e q e' H s; cbn [strip2] in H; try (injection H as <- <-; reflexivity).
-  rewrite <- (IH (e + 1) q e' H s).
-  rewrite (F2R_change_exp radix2 e (if s then Zneg p else Zpos p) (e + 1)) by lia.
-  replace (e + 1 - e) with 1 by lia. change (Zpower radix2 1) with 2. f_equal. f_equal. destruct s; lia.
-Qed.
-
-(* mk_fl keeps the value *)
-Lemma ff_mk_fl m e x : mk_fl m e = Some x -> ff_R x = F2R (Float radix2 m e).
-Proof.
-  unfold mk_fl. destruct m as [|p|p].
-  - intros H. injection H as <-. cbn [ff_R]. symmetry. apply F2R_0.
-  - destruct (strip2 p e) as [q e'] eqn:S. destruct ((Zpos q <? two53) && (-1000 <? e') && (e' <? 900))%bool; [|discriminate].
-    intros H. injection H as <-. cbn [ff_R]. symmetry. exact (ff_strip2 p e q e' S false).
-  - destruct (strip2 p e) as [q e'] eqn:S. destruct ((Zpos q <? two53) && (-1000 <? e') && (e' <? 900))%bool; [|discriminate].
-    intros H. injection H as <-. cbn [ff_R]. symmetry. exact (ff_strip2 p e q e' S true).
-Qed.
 
 (* mk_fl_r is the correctly rounded value *)
 Lemma ff_mk_fl_r M E x : mk_fl_r M E = Some x ->
